@@ -14,7 +14,7 @@ def run(ctx):
                 "measurement judged by TLC; class = (ops kinds, N parity, layout, signs of m2/m3, loss, fs) resp. (law, length class, layout)")
     T = ctx.thorough
     ctx.tlc("MC_Channel", "SPECIFICATION Spec\n" + INV + "CONSTANTS Ns = {2,3,4,5,8,9%s}\n Ms <- MsSet\n LossVals = {0,10}\n MaxOps = %d\n" % (",16,17" if T else "", 2),
-            note="all span histories on the phase lattice", timeout=3000)
+            note="all span histories on the phase lattice", timeout=3000, actions=["DM", "Fiber"])
     r = ctx.tlc("MC_Channel", "SPECIFICATION Spec\n" + INV + "INVARIANT Emit\nCONSTANTS Ns = {2,3,4,5,8,9}\n Ms <- MsSmall\n LossVals = {0,10}\n MaxOps = 2\n",
                 workers=1, note="replayed histories", timeout=3000, count=False)
     ctx.exhaustive = True
